@@ -359,3 +359,12 @@ def rand_digits(rnd, n, kind=None):
 
 def ndig(v):
     return (abs(v).bit_length() + 63) // 64
+
+
+def special_values():
+    """values nobody lists explicitly: primitive-type boundaries, word boundaries, decimal boundaries, sparse values"""
+    vals = {0, 1, 2, 3, 5, 7, 10, 255, 256, 10 ** 19, 10 ** 19 + 1, 10 ** 20, 10 ** 38, 10 ** 39, 3 ** 40, 3 ** 41, 7 ** 22}
+    for k in (7, 8, 15, 16, 31, 32, 33, 63, 64, 65, 95, 96, 127, 128, 129, 191, 192, 193, 255, 256, 257, 319, 320, 321):
+        vals |= {(1 << k) - 1, 1 << k, (1 << k) + 1}
+    vals |= {(1 << 128) + (1 << 64), (1 << 192) + 1, ((1 << 64) - 1) << 64, ((1 << 64) - 1) << 128, (1 << 128) - (1 << 64), (3 << 126), (1 << 200) - (1 << 100)}
+    return sorted(vals)
